@@ -179,14 +179,15 @@ def post(merged, tier, seed):
         merged['inconclusive'].append('no run completed')
         return
     orders = set()
+    multi = []
     for ds, lst in runs.items():
         ref_name, ref = next(((n, r) for n, r in lst if r['pool'] == 0), lst[0])
         refmap = {(a, b): s for a, b, s in ref['map']}
         for name, r in lst:
             if r['pool'] > 0:
                 orders.add((ds, r['order_hash']))
-                if r['pool'] >= 2 and r['tasks'] >= 8 and r['pids'] < 2:
-                    merged['inconclusive'].append('run %s: %d tasks served by a single worker pid' % (name, r['tasks']))
+                if r['pool'] >= 2 and r['tasks'] >= 8:
+                    multi.append((name, r['pids'] >= 2, r['tasks']))
             if name == ref_name:
                 continue
             m = {(a, b): s for a, b, s in r['map']}
@@ -197,6 +198,13 @@ def post(merged, tier, seed):
                 core.post_fail(merged, 'scores-identical-across-runs', 'scores-differ-between-runs', name,
                                {'data_set': ds, 'reference_run': ref_name, 'this_run': {k: r[k] for k in ('pool', 'dseed', 'rep', 'pids', 'overlaps', 'order_hash')},
                                 'differences(pair, reference, this)': diff, 'n_pairs': [len(refmap), len(m)], 'duplicate_keys': r['duplicate_keys']})
+    # concurrency is a property of the run matrix: on a loaded machine one short run may be served by the first worker alone before the
+    # others have started; the matrix is inconclusive only when that is common (more than a quarter of the multi-worker runs)
+    single = [(n_, t_) for n_, ok_, t_ in multi if not ok_]
+    merged['notes']['multi_worker_runs'] = len(multi)
+    merged['notes']['multi_worker_runs_served_by_one_pid'] = [n_ for n_, _ in single]
+    if multi and len(single) > max(1, len(multi) // 4):
+        merged['inconclusive'].append('%d of %d multi-worker runs were served by a single worker pid (e.g. %s: %d tasks)' % (len(single), len(multi), single[0][0], single[0][1]))
     merged['notes']['distinct_completion_orders'] = len(orders)
     if len(orders) >= 3:
         core.post_ok(merged, 'schedule-diversity', len(orders))
